@@ -7,6 +7,7 @@ COMMON_OVERLAY = {
     "internal/zzverif/desc.go": "harness/zzverif/desc.go",
     "internal/zzverif/http.go": "harness/zzverif/http.go",
     "internal/zzverif/json.go": "harness/zzverif/json.go",
+    "internal/zzverif/trace.go": "harness/zzverif/trace.go",
     "internal/clientgen/zz_verif_export.go": "harness/export/clientgen_export.go",
     "internal/tsclientgen/zz_verif_export.go": "harness/export/tsclientgen_export.go",
     "internal/tsservergen/zz_verif_export.go": "harness/export/tsservergen_export.go",
@@ -114,4 +115,11 @@ PROPERTIES = {
                                       "collections: min/max items/pairs < 2^62, sizes 0..3; strings: min/max length < 2^62 (probe length as a number), const/in with strings <= 4, 8 well-known formats"},
                 assumptions=["rule pairs with upper bound below lower bound (buf.validate's reversed-range semantics) are assumed away",
                              "the schema is read from the base.Schema object the real code fills (keywords Minimum/Maximum/ExclusiveMinimum/ExclusiveMaximum/Const/Enum/Min-MaxLength/Items/Properties/UniqueItems/Format); its type pairing (string-encoded int64), float/double kinds, pattern and YAML rendering of const/enum scalars are not part of this check yet"]),
+    "C14": dict(G_HTTPGEN,
+                overlay={"internal/httpgen/zz_verif_c12_common.go": "harness/c12/c12_common.go",
+                         "internal/httpgen/zz_verif_c14.go": "harness/c14/c14_codecs.go"},
+                harnesses=[dict(func="VerifC14CodecFiles", reach=["C14/compared", "C14/kf-no-service", "C14/kf-unwrap"], quick=dict(budget=300), thorough=dict(budget=900))],
+                bounds_text={"quick": "one file, with or without a service, holding one message per codec feature (int64 NUMBER singular+repeated, partially annotated enum, nullable, empty_behavior x3, timestamp_format x3, bytes_encoding x4, flatten+prefix, discriminated oneof flattened or not with custom oneof_value, root unwrap); field names, JSON names (independent of the names), prefixes, discriminators and custom values symbolic strings <= 3; both generators run in full and their emission traces are compared line by line"},
+                assumptions=["GoIdent operands are rendered by the recording stub as <import path>.<name> for both generators alike",
+                             "annotated types defined in other files of the run and plugin-order effects on the file system are not part of this check"]),
 }
